@@ -494,11 +494,11 @@ func (m *monC12) BeforeTx(w *World, tx *TxCtx) {
 		sa, err := sdk.AccAddressFromBech32(s)
 		if err == nil {
 			sp := w.Ref.App.BankKeeper.SpendableCoins(ctx, sa).AmountOf(t.Deposit.Denom)
-			need := t.Deposit.Amount
+			need := new(big.Int).Set(t.Deposit.Amount.BigInt()) // may exceed what an sdk.Int can add to
 			if tx.Payer.Equals(sa) {
-				need = need.Add(tx.Fee.AmountOf(t.Deposit.Denom))
+				need.Add(need, tx.Fee.AmountOf(t.Deposit.Denom).BigInt())
 			}
-			p.Affordable = t.Deposit.Amount.IsPositive() && sp.GTE(need)
+			p.Affordable = t.Deposit.Amount.IsPositive() && sp.BigInt().Cmp(need) >= 0
 		}
 		p.SameDenom = t.Deposit.Denom == q.Deposit.Denom
 		// the new zero time must be representable for the statement to apply
